@@ -775,9 +775,12 @@ impl Bmi2StringProcessor {
             if chunk.len() == 8 {
                 let bytes = unsafe { std::ptr::read_unaligned(chunk.as_ptr() as *const u64) };
                 
-                // Use BMI2 operations for hash mixing
-                hash = hash.rotate_left(5).wrapping_add(bytes);
-                hash ^= Bmi2BextrOps::extract_bits_bextr(hash, 13, 19);
+                // Absorb the eight bytes exactly like the portable implementation: the hash of
+                // a string must not depend on its length class or on the CPU
+                for byte_pos in 0..8 {
+                    let byte = Bmi2BextrOps::extract_bits_bextr(bytes, (byte_pos * 8) as u32, 8);
+                    hash = hash.rotate_left(5).wrapping_add(byte);
+                }
             } else {
                 // Handle remainder with scalar processing
                 for &byte in chunk {
